@@ -23,13 +23,6 @@ Definition inv_b (g : dag) (v : view) : bool :=
 Definition okb (c : case) : bool :=
   wf_dagb (pg (k_graph c)) && forallb (inv_b (pg (k_graph c))) (k_views c).
 
-(** Known-finding class "root-fast-path": add_heads is asked to add the root commit alone.
-    The root has no parents, so the guard of the incremental path (all parents are heads) holds
-    vacuously, replace_heads inserts the root next to the other heads and head_normalized stays
-    set: the committed view lists the root as a head together with other heads. *)
-Definition known_root (c : case) : bool :=
-  existsb (fun o => match o with OAddHeads [O] => true | _ => false end) (k_ops c).
-
 Definition outcome_code {A} (r : res A) : N :=
   match r with Ok _ => 0 | Err => 1 | Panic => 2 | Fuel => 3 end.
 
@@ -42,5 +35,5 @@ Definition check_case (c : case) : N :=
     | Ok s => list_eqb commit_eqb (s_g s) (k_graph c)
     | _ => true
     end in
-  verdict (corr_views && corr_out && corr_graph) (okb c) (negb (okb c) && known_root c)
+  verdict (corr_views && corr_out && corr_graph) (okb c) false
           (if negb corr_out then 1 else if negb corr_views then 2 else if negb corr_graph then 3 else 4).
